@@ -111,7 +111,8 @@ FirstDiff(a, b) == IF Len(a) # Len(b) THEN "length" ELSE LET D == {i \in 1..Len(
                    IF a[i].o # b[i].o THEN "result" ELSE IF "n" \in DOMAIN a[i] /\ a[i].n # b[i].n THEN "count" ELSE "visible-content"
 JudgeWR(r) ==
    LET d == r.direct  v == r.via
-       base == IF r.what = "w" THEN JudgeW(d) ELSE JudgeRS(d) IN
+       \* "rw" (a read handle across a rewrite of its file): the reference leaves the bytes open, only the two routes must agree
+       base == IF r.what = "w" THEN JudgeW(d) ELSE IF r.what = "rw" THEN << <<"ok", "rw", "nt">> >> ELSE JudgeRS(d) IN
    IF d = v THEN [i \in 1..Len(base) |-> IF base[i][1] = "ok" THEN <<"ok", "route:" \o r.what \o ":" \o r.be, base[i][Len(base[i])]>> ELSE base[i]]
    ELSE << <<"BAD", "route", r.be, r.what, IF d.open # v.open THEN "open" ELSE FirstDiff(d.res, v.res)>> >>
 \* flush under contention: every (write .. flush, read back) of a thread's own file shows exactly what was written so far
